@@ -25,7 +25,7 @@ type timingCase struct {
 // prediction is the index the chain enforces.
 func replayTiming(in, out string, shard, of int) {
 	rep := hx.NewReport("chain-claims", "replay-timing")
-	groups := map[[2]int64][]timingCase{}
+	groups := map[[3]int64][]timingCase{}
 	modelOnly, others := 0, 0
 	err := hx.ReadBehaviours(in, func(idx int, beh []hx.Step) error {
 		for _, c := range beh {
@@ -34,7 +34,10 @@ func replayTiming(in, out string, shard, of int) {
 				modelOnly++ // rejected by genesis validation: cannot exist on a real chain
 				continue
 			}
-			k := [2]int64{B, W}
+			k := [3]int64{B, W, 0}
+			if c.Bool("disp") {
+				k[2] = 1 // the node serves dispatches: every session is in its cache when the claim arrives
+			}
 			groups[k] = append(groups[k], timingCase{idx, c})
 		}
 		return nil
@@ -42,11 +45,11 @@ func replayTiming(in, out string, shard, of int) {
 	if err != nil {
 		hx.Fatal("%v", err)
 	}
-	keys := make([][2]int64, 0, len(groups))
+	keys := make([][3]int64, 0, len(groups))
 	for k := range groups {
 		keys = append(keys, k)
 	}
-	sort.Slice(keys, func(i, j int) bool { return keys[i][0]*100+keys[i][1] < keys[j][0]*100+keys[j][1] })
+	sort.Slice(keys, func(i, j int) bool { return keys[i][0]*1000+keys[i][1]*10+keys[i][2] < keys[j][0]*1000+keys[j][1]*10+keys[j][2] })
 	var confirmations []interface{}
 	for gi, k := range keys {
 		if gi%of != shard {
@@ -55,6 +58,7 @@ func replayTiming(in, out string, shard, of int) {
 		cases := groups[k]
 		sort.SliceStable(cases, func(i, j int) bool { return cases[i].c.Int("ch") < cases[j].c.Int("ch") })
 		p := chainParams{B: k[0], W: k[1], Exp: k[1] + 1}
+		disp := k[2] == 1
 		s := newSim(claimsConfig(hx.Seed(), p))
 		b := newEvBook(s)
 		ent := int64(5000)
@@ -62,7 +66,7 @@ func replayTiming(in, out string, shard, of int) {
 		for ci < len(cases) {
 			ch := int64(cases[ci].c.Int("ch"))
 			for s.Height < ch-1 {
-				block(s)
+				blockD(s, disp)
 			}
 			// block ch-1 is committed and block ch does not exist: whatever is computed here is
 			// known to everybody who authors a transaction for block ch
@@ -91,13 +95,13 @@ func replayTiming(in, out string, shard, of int) {
 				ent++
 				res := s.DeliverTx(s.SignTx(ev.claimMsg(s, 5), txo(s, kNode1, ent)))
 				accepted := res.Code == 0
-				rep.OpCounts[fmt.Sprintf("claim accepted=%v known=%v", accepted, pd.have)]++
+				rep.OpCounts[fmt.Sprintf("claim accepted=%v known=%v dispatched=%v", accepted, pd.have, disp)]++
 				if accepted != tc.c.Bool("accepted") {
 					// C31 is contradicted only by an ACCEPTED claim whose selecting block is already
 					// committed; other disagreements (start of the window) are C32's and only counted
 					if accepted && pd.have {
 						rep.AddMismatch(hx.Mismatch{Behaviour: tc.idx, Op: "claim", What: fmt.Sprintf("claim for session %d accepted at height %d (B=%d W=%d) although block %d, whose hash selects the leaf, is already committed",
-							S, ch, k[0], k[1], tc.c.Int("entropyH")), Want: tc.c.Bool("accepted"), Got: classOf(res), History: []hx.Step{tc.c}})
+							S, ch, k[0], k[1], tc.c.Int("entropyH")), Want: tc.c.Bool("accepted"), Got: classOf(res), History: []hx.Step{tc.c}, Variant: fmt.Sprintf("dispatched=%v", disp)})
 					} else {
 						others++
 					}
@@ -115,7 +119,7 @@ func replayTiming(in, out string, shard, of int) {
 					ent++
 					r2 := s.DeliverTx(s.SignTx(ev.proofMsg(b, int(pd.pred), int(pd.pred), false, 0), txo(s, kNode1, ent)))
 					rep.Steps++
-					conf := map[string]interface{}{"B": k[0], "W": k[1], "sessionH": S, "claimHeight": ch, "entropyHeight": tc.c.Int("entropyH"),
+					conf := map[string]interface{}{"B": k[0], "W": k[1], "dispatched": disp, "sessionH": S, "claimHeight": ch, "entropyHeight": tc.c.Int("entropyH"),
 						"lastAcceptedHeight": S + k[1]*k[0], "predictedIndex": pd.pred, "proofWithPredictedIndex": classOf(r2), "specBoundary": tc.c.Bool("boundary")}
 					confirmations = append(confirmations, conf)
 					if r2.Code == 0 && !tc.c.Bool("boundary") {
@@ -126,6 +130,9 @@ func replayTiming(in, out string, shard, of int) {
 			}
 			s.EndBlock()
 			s.Commit()
+			if disp {
+				dispatchAll(s)
+			}
 		}
 	}
 	rep.Distinct = rep.Behaviours
